@@ -23,6 +23,8 @@ PASS_THROUGH = (
     "core::iter::traits::iterator::Iterator::map", "core::iter::traits::iterator::Iterator>::map",
     "core::iter::traits::iterator::Iterator::rev", "core::iter::traits::iterator::Iterator::cloned",
     "core::convert::TryFrom>::try_from", "core::convert::TryInto>::try_into",
+    "<alloc::vec::Vec>::as_slice", "<alloc::vec::Vec>::as_mut_slice", "<alloc::string::String>::as_str",
+    "<alloc::boxed::Box>::as_ref", "<core::option::Option>::as_mut", "<core::option::Option>::as_deref_mut",
 )
 
 
@@ -231,9 +233,37 @@ class Prov:
                     if name.endswith("unwrap_or") or name.endswith("mem::replace") else set())
             if name.endswith("::len") and "::str" in name or name in ("<str>::len", "<[T]>::len", "<alloc::string::String>::len", "<alloc::vec::Vec>::len"):
                 return {("len", name)}
+            sub = self._through_new_helper(t, through_arith)
+            if sub is not None:
+                return sub
             return {("call", name) + ((tuple(_pstr(p) for p in projs),) if projs else ())}
         rv = payload["rv"]
         return self.origins_rv(rv, through_arith, seen, projs)
+
+    def _through_new_helper(self, t, through_arith):
+        """A helper function that did not exist on the reference tree is transparent: the origins of its result are the
+        origins of what it returns, with its parameters replaced by the origins of the arguments at this call."""
+        f = t["f"]
+        q = f.get("r")
+        depth = getattr(self, "_hdepth", 0)
+        if not (f.get("rlocal") and q) or depth >= 3 or not self.F.is_new_fn(q) or q == self.body.fn.q:
+            return None
+        g = self.F.fn_opt(q)
+        if g is None or g.body is None:
+            return None
+        P2 = Prov(self.F, g.body)
+        P2._hdepth = depth + 1
+        P2.variant_fields, P2.with_base, P2.field_pick = self.variant_fields, self.with_base, self.field_pick
+        inner = P2.origins_place({"l": 0, "p": [], "t": g.body.locals[0]["t"]}, through_arith)
+        out = set()
+        for o in inner:
+            if o and o[0] == "arg" and isinstance(o[1], int) and 1 <= o[1] <= len(t["xs"]):
+                out |= self.origins_op(t["xs"][o[1] - 1], through_arith)
+            else:
+                out.add(o)
+        if P2._sub:
+            self._sub = True
+        return out
 
     def origins_rv(self, rv, through_arith=False, _seen=None, projs=()):
         seen = _seen if _seen is not None else set()
